@@ -179,7 +179,10 @@ def derive_bottom(rng, top: dict, platform: str, small=None, kmax=3) -> dict:
     for side in ("sport", "dport"):
         bot[side] = _port_related(rng, _port_sem(top.get(side)), small, platform == "ios") if bot["proto"] in (6, 17) else None
     if bot["proto"] == 6:
-        if top.get("flags") and rng.random() < 0.6:
+        if top.get("flags") and rng.random() < 0.25:
+            extra = [f for f in names.TCP_FLAGS if f not in top["flags"]]
+            bot["flags"] = rng.sample(top["flags"], 1) + (rng.sample(extra, 1) if extra else [])
+        elif top.get("flags") and rng.random() < 0.6:
             bot["flags"] = rng.sample(top["flags"], rng.randint(1, len(top["flags"])))
         else:
             bot["flags"] = rng.sample(list(names.TCP_FLAGS), rng.randint(1, 2)) if rng.random() < 0.2 else []
@@ -241,7 +244,11 @@ def gen_related_pair(rng, platform: str, *, groups: bool, small=None, kmax=3) ->
             bot[side] = None
     top["flags"] = rng.sample(list(names.TCP_FLAGS), rng.randint(1, 3)) if proto_t == 6 and rng.random() < 0.25 else []
     if proto_b == 6:
-        if top["flags"] and rng.random() < 0.6:
+        if top["flags"] and rng.random() < 0.25:
+            # shares a flag with the top and has one the top lacks (overlapping, not contained)
+            extra = [f for f in names.TCP_FLAGS if f not in top["flags"]]
+            bot["flags"] = rng.sample(top["flags"], 1) + (rng.sample(extra, 1) if extra else [])
+        elif top["flags"] and rng.random() < 0.6:
             bot["flags"] = rng.sample(top["flags"], rng.randint(1, len(top["flags"])))
         else:
             bot["flags"] = rng.sample(list(names.TCP_FLAGS), rng.randint(1, 2)) if rng.random() < 0.2 else []
